@@ -134,13 +134,9 @@ func c01Run(c *mc.Ctx) {
 	// lengths around powers of two up to 2^16 words (64 KiB .. 512 KiB of bitmap): size thresholds
 	// at which an implementation may switch strategy (chunking, parallel build)
 	{
-		var lens []int
-		for p := uint(10); p <= 16; p++ {
-			for _, d := range []int{-1, 0, 1, 2, 3, 5, 7, 8, 9} {
-				lens = append(lens, 1<<p+d)
-			}
-		}
-		lens = append(lens, 10001, 12345)
+		// 2^p + d and every round-number threshold (3·2^k, 10^k, 2·10^k, 5·10^k, each ±1) in between
+		lens := gen.SizesAround(10, 16, []int{-1, 0, 1, 2, 3, 5, 7, 8, 9})
+		lens = append(lens, 12345)
 		type job struct{ l, p int }
 		var jobs []job
 		for _, l := range lens {
